@@ -19,7 +19,7 @@ use yash_env::trap::{Action, SetActionError, SignalSystem};
 pub const INFO: PropInfo = PropInfo {
     id: "C11",
     level: "exploration",
-    rule: "two families of cases. (history) operation sequences over {set_action(signal, default|ignore|command) with override_ignore fixed per history (interactive or not), enable/disable the internal dispositions for SIGCHLD / terminators / stoppers / all, enter_subshell(ignore_sigint_sigquit, keep_stoppers), deliver(signal) + poll, take_caught_signal*} on signals {INT QUIT TERM CHLD TSTP TTIN USR1 KILL STOP} x 3 configurations of initially ignored signals, executed on TrapSet over Rc<Concurrent<VirtualSystem>>; exhaustive to length 4 (quick) / strided length 5 (thorough) over a 53-operation alphabet, random to length 14. Oracle after every operation: for every signal the disposition installed in the simulated process == max(internal, disposition of (user action or inherited)) in the order Default<Ignore<Catch; set_action fails with InitiallyIgnored exactly when the signal was ignored on entry and override is off, with SIGKILL/SIGSTOP errors for those; take_caught_signal yields each delivered trapped signal exactly once. (delivery) scripts of 3-7 commands with `trap 'mark T$?' USR1`: the signal is sent by `kill -s USR1 $$` at every position, or raised asynchronously by the scheduler before a generated step, also in an interactive shell that reads the script through a pipe in generated chunks so that the `read` built-in (and the shell's own input) can be blocked when the signal arrives; exactly one trap execution per delivery, after the command during which it arrived and before the next command of that process (or wait returns >128 and the action runs before the next command), `$?` seen by the action is that of the interrupted/previous command and is restored afterwards. (chain) two traps, USR1 -> `mark T $?[; kill -s USR2 $$ | ; return 7]`, USR2 -> `mark U $?`: USR2 delivered while the USR1 action runs, both signals pending at one command boundary (sent by a subshell in either order), a USR1 action that returns from the enclosing function, delivery by the last command of the script; between two consecutive marks each delivery's action runs exactly once, the action of a signal sent by another action follows it directly, no command of the left function runs, `$?` untouched. Non-trivial: history changes the effective disposition of a signal >= 2 times; delivery arrives while >= 1 command is still to run; distinct by serialised case.",
+    rule: "two families of cases. (history) operation sequences over {set_action(signal, default|ignore|command) with override_ignore fixed per history (interactive or not), enable/disable the internal dispositions for SIGCHLD / terminators / stoppers / all, enter_subshell(ignore_sigint_sigquit, keep_stoppers), deliver(signal) + poll, take_caught_signal*} on signals {INT QUIT TERM CHLD TSTP TTIN USR1 KILL STOP} x 3 configurations of initially ignored signals, executed on TrapSet over Rc<Concurrent<VirtualSystem>>; exhaustive to length 4 (quick) / strided length 5 (thorough) over a 53-operation alphabet, random to length 14. Oracle after every operation: for every signal the disposition installed in the simulated process == max(internal, disposition of (user action or inherited)) in the order Default<Ignore<Catch; set_action fails with InitiallyIgnored exactly when the signal was ignored on entry and override is off, with SIGKILL/SIGSTOP errors for those; take_caught_signal yields each delivered trapped signal exactly once. (delivery) scripts of 3-7 commands with `trap 'mark T$?' USR1`: the signal is sent by `kill -s USR1 $$` at every position, or raised asynchronously by the scheduler before a generated step, also in an interactive shell that reads the script through a pipe in generated chunks so that the `read` built-in (and the shell's own input) can be blocked when the signal arrives; exactly one trap execution per delivery, after the command during which it arrived and before the next command of that process (a delivery made while the shell is blocked inside the `wait` built-in - the awaited child is held until after the wait - must make `wait` return > 128 at once, with the action run exactly once before the next command), `$?` seen by the action is that of the interrupted/previous command and is restored afterwards. (chain) two traps, USR1 -> `mark T $?[; kill -s USR2 $$ | ; return 7]`, USR2 -> `mark U $?`: USR2 delivered while the USR1 action runs, both signals pending at one command boundary (sent by a subshell in either order), a USR1 action that returns from the enclosing function, delivery by the last command of the script; between two consecutive marks each delivery's action runs exactly once, the action of a signal sent by another action follows it directly, no command of the left function runs, `$?` untouched. Non-trivial: history changes the effective disposition of a signal >= 2 times; delivery arrives while >= 1 command is still to run; distinct by serialised case.",
     assumptions: &[
         "signals are not queued: two deliveries before a command boundary may run the action once or twice (counted, not judged)",
         "asynchronous delivery is explored only between scheduler steps (blocking points and preemption points)",
@@ -366,7 +366,16 @@ pub enum Step {
     /// `read rX` + a data line (only when the script is fed through a pipe: the built-in then
     /// blocks until the feeder has written the line, which is when a signal can arrive)
     Read,
+    /// `( hold; st N ) & mark W; wait $!; mark A; release; wait $!` - the child cannot finish before
+    /// `release`, and the harness raises USR1 once the shell is blocked after `mark W`, i.e. inside
+    /// the wait built-in: `wait` must return > 128 at once and the action must run right after it.
+    /// Used at most once per case, without any other delivery, in non-interactive shells.
+    WaitHeld(u8),
 }
+
+/// expected `$?` of a mark that follows the interrupted `wait`: any value > 128, the same the
+/// action saw
+const INTERRUPTED: i32 = -128;
 
 #[derive(Clone, Debug, PartialEq, Eq, Hash, Serialize, Deserialize)]
 pub struct DeliverCase {
@@ -385,11 +394,22 @@ fn check_deliver(c: &DeliverCase) -> Outcome {
     // expected (without asynchronous delivery): sequence of (marker, status)
     let mut expect: Vec<(String, i32)> = vec![];
     let mut status = 0;
+    let held = c.raise_at.is_none() && c.interactive_pipe.is_none() && c.steps.iter().any(|s| matches!(s, Step::WaitHeld(_)));
+    let mut held_done = false;
     for s in &c.steps {
-        if c.raise_at.is_some() && matches!(s, Step::Kill) {
+        if (c.raise_at.is_some() || held) && matches!(s, Step::Kill) {
             continue; // one kind of delivery per case keeps the attribution of T entries unambiguous
         }
         match s {
+            Step::WaitHeld(n) => {
+                if held && !held_done {
+                    held_done = true;
+                    script.push_str(&format!("( hold; st {n} ) &\nmark W\nwait $!\nmark A\nrelease\nwait $!\n"));
+                    expect.push(("W".into(), 0));
+                    expect.push(("A".into(), INTERRUPTED));
+                    status = *n as i32;
+                }
+            }
             Step::St(n) => {
                 script.push_str(&format!("st {n}\n"));
                 status = *n as i32;
@@ -453,13 +473,22 @@ fn check_deliver(c: &DeliverCase) -> Outcome {
         s.preempt = true;
     }
     s.raise_usr1_at_step = c.raise_at;
+    if held {
+        s.raise_usr1_when_blocked_after = Some("W".into());
+        s.preempt = true;
+        s.drain = true; // let the released child end
+    }
     let r = vsys::run(&s);
     let ctx = |m: String| format!("{m}\nraise_at {:?} sched {:?}\nscript:\n{script}stderr: {:?}", c.raise_at, c.sched, r.stderr);
     if let Some(p) = &r.panic {
         return Outcome::fail(ctx(format!("panic: {p}")));
     }
     if r.log.deadlock || !r.finished {
-        return Outcome::fail(ctx("shell did not finish".into()));
+        return Outcome::fail(ctx(if held {
+            "shell did not finish: `wait` was not interrupted by the trapped signal that arrived while it was blocked (the child cannot end before `release`)".into()
+        } else {
+            "shell did not finish".into()
+        }));
     }
     let got: Vec<(String, i32, Vec<String>)> = r.main_trace().iter().map(|t| (t.args[0].clone(), t.status, t.args.clone())).collect();
     let raised = r.log.raised;
@@ -488,7 +517,26 @@ fn check_deliver(c: &DeliverCase) -> Outcome {
             Some(e) if &e.0 == name => {
                 // `$?` on entry to a mark: if an asynchronous trap ran just before, `$?` must still
                 // be the value from before the trap (restored)
-                if e.1 != *st {
+                if e.1 == INTERRUPTED {
+                    // the mark after the interrupted wait: the action ran directly before it and
+                    // both saw the status of the interrupted wait, which is > 128
+                    let t = async_t.last().copied();
+                    if t.map(|t| t.0 + 1) != Some(pos) {
+                        return Outcome::fail(ctx(format!(
+                            "USR1 arrived while the shell was blocked in `wait`, but the action did not run between `wait` and the next command: {got:?}"
+                        )));
+                    }
+                    // yash-rs runs the action inside the built-in ("the trap action is executed and
+                    // the built-in returns immediately", docs/src/builtins/wait.md), where `$?` is
+                    // still that of the previous command (0, left by `mark W`); POSIX words it as
+                    // wait returning first. Either way the next command must see the status > 128.
+                    if *st <= 128 || !t.is_some_and(|t| t.1 == *st || t.1 == 0) {
+                        return Outcome::fail(ctx(format!(
+                            "`wait` interrupted by a trapped signal must return > 128 (and the action sees that status or the one before `wait`): action saw {:?}, next command saw {st}",
+                            t.map(|t| t.1)
+                        )));
+                    }
+                } else if e.1 != *st {
                     return Outcome::fail(ctx(format!("mark {name} saw $?={st}, expected {} (the trap action must not change $?)", e.1)));
                 }
                 actual.push((name.clone(), *st));
@@ -526,6 +574,7 @@ fn check_deliver(c: &DeliverCase) -> Outcome {
         .class_if(kills > 0, "self-kill")
         .class_if(raised && async_t.first().is_some_and(|a| a.0 + 1 < got.len()), "delivery-before-last-command")
         .class_if(c.raise_at.is_some() && !raised, "raise-point-beyond-run")
+        .class_if(held && raised, "delivery-while-blocked-in-wait")
         .class_if(c.interactive_pipe.is_some(), "interactive-shell-fed-through-a-pipe")
         .class_if(c.interactive_pipe.is_some() && c.steps.contains(&Step::Read), "read-built-in-may-block")
 }
@@ -750,6 +799,7 @@ fn arb_step() -> impl Strategy<Value = Step> {
         1 => (0u8..4).prop_map(Step::Func),
         2 => Just(Step::Kill),
         2 => Just(Step::Read),
+        2 => (0u8..4).prop_map(Step::WaitHeld),
     ]
 }
 
